@@ -12,7 +12,7 @@ CKKS_MSGS = [[[1, 0], [0, 1], [-2, 1], [3, -1]], [[2, 1], [-1, 0], [0, -2], [1, 
 
 ARITH = ["Encode", "Encrypt", "Negate", "Add", "Sub", "Multiply", "Square", "Relin", "AddPlain", "SubPlain", "MulPlain",
          "ToNtt", "FromNtt", "PlainToNtt", "ModSwitchNext"]
-FRESH = ["Encode", "Encrypt", "EncryptZero", "Expand", "Decrypt"]
+FRESH = ["Encode", "Encrypt", "EncryptZero", "Expand", "Decrypt", "ModSwitchNext"]
 CHAIN = ["Encode", "Encrypt", "EncryptZero", "Multiply", "ModSwitchNext", "ModSwitchTo", "RescaleNext", "RescaleTo",
          "PlainToNtt", "ModSwitchPlainNext", "ModSwitchPlainTo", "ToNtt", "FromNtt"]
 GALOIS = ["Encode", "Encrypt", "Galois", "Rotate", "Conj", "ModSwitchNext", "ToNtt", "FromNtt", "Multiply"]
@@ -97,7 +97,9 @@ def check_c01(rep):
     rep.cov["rule"] = ("behaviours = paths of HE.tla restricted to encode/encrypt/encrypt_zero/expand/decrypt; a class is a distinct "
                        "(action, arguments, operand typestates) tuple; each class is replayed once plus a random sample of further transitions")
     psets = [BFV, BGV, CKKS, "bfv_4_17_30,30,30", "bgv_4_17_30,30,30", "bfv_16_97_40,40,40", "bgv_16_97_40,40,40", "ckks_4_0_40,40,40",
-             "bfv_8_17_20,40,60,60", "bgv_8_17_60,30,40,60", "bfv_2_5_30,30", "bgv_2_5_30,30", "ckks_16_0_50,30,50"]
+             "bfv_8_17_20,40,60,60", "bgv_8_17_60,30,40,60", "bfv_2_5_30,30", "bgv_2_5_30,30", "ckks_16_0_50,30,50",
+             # plain modulus larger than one of the coefficient primes (no fast plain lift), power-of-two plain modulus
+             "bfv_8_12289_10,50,50,50", "bgv_8_12289_50,12,50,50", "bfv_8_16_30,30,30", "bfv_8_7_30,30,30"]
     if not quick:
         psets += ["bfv_32_193_50,50,50", "bgv_32_193_50,50,50", "bfv_8_17_60,60,60,60,60,60,60", "bgv_8_17_30,30,30,30,30,30,30",
                   "ckks_8_0_60,60,60,60,60", "bfv_64_257_45,45,45", "ckks_64_0_45,45,45", "bfv_4_97_25,25,25,25,25"]
@@ -110,7 +112,7 @@ def check_c01(rep):
         else:
             up = (t + 1) // 2
             msgs = [[0], [1], [t - 1], [up] * n, [up - 1] * (n - 1), [t - 1] * n, [(3 * i + 1) % t for i in range(n)], [0] * (n - 1) + [up]]
-        run_instance(rep, "fresh%d" % i, ps, actions=FRESH, depth=4, ct_slots=("c1",), pt_slots=("p1",), msgs=msgs, tag_msgs=True,
+        run_instance(rep, "fresh%d" % i, ps, actions=FRESH, depth=4, ct_slots=("c1",), pt_slots=("p1",), msgs=msgs[:5] if quick else msgs, tag_msgs=True,
                      scales=(20, 30) if sch == "ckks" else (30,), extra_sample=3000 if quick else 20000)
     rep.assumptions += COMMON_ASSUME
 
@@ -128,6 +130,17 @@ def check_c02(rep):
                  extra_sample=3000 if quick else 30000)
     run_instance(rep, "sizes_bgv", "bgv_8_17_55,55,55,55", actions=big, depth=6 if quick else 7, ct_slots=("c1", "c2", "c3"), max_size=9,
                  extra_sample=3000 if quick else 30000)
+    mono = [[0, 0, 5], [0, 16], [1, 2, 3, 4, 5, 6, 7, 16], [7]]
+    plainops = ["Encode", "Encrypt", "Sub", "Add", "Negate", "MulPlain", "AddPlain", "SubPlain", "ToNtt", "FromNtt", "PlainToNtt", "Multiply"]
+    run_instance(rep, "bigt_bfv", "bfv_8_12289_10,50,50,50", actions=plainops, depth=5, msgs=[[0, 0, 5], [0, 12288], [1, 2, 3, 7000, 5, 6, 7, 12288], [9000]], tag_msgs=True, extra_sample=3000)
+    run_instance(rep, "bigt_bgv", "bgv_8_12289_50,12,50,50", actions=plainops, depth=5, msgs=[[0, 0, 5], [0, 12288], [1, 2, 3, 7000, 5, 6, 7, 12288], [9000]], tag_msgs=True, extra_sample=3000)
+    run_instance(rep, "mono_bfv", BFV, actions=plainops, depth=5, msgs=mono, tag_msgs=True, extra_sample=3000)
+    run_instance(rep, "mono_bgv", BGV, actions=plainops, depth=5, msgs=mono, tag_msgs=True, extra_sample=3000)
+    # more correction-factor combinations: other plain moduli / prime residues, two switches
+    cfacts = ["Encode", "Encrypt", "Add", "Sub", "Multiply", "ModSwitchNext", "Relin"]
+    for i, ps in enumerate(["bgv_8_97_40,40,40,40", "bgv_8_17_45,38,52,55", "bgv_8_113_50,50,50,50"] if quick else
+                           ["bgv_8_97_40,40,40,40", "bgv_8_17_45,38,52,55", "bgv_8_113_50,50,50,50", "bgv_8_193_50,44,50,50", "bgv_8_241_36,47,58,60", "bgv_8_257_50,50,50,50,50"]):
+        run_instance(rep, "cf_bgv%d" % i, ps, actions=cfacts, depth=7 if quick else 8, extra_sample=3000 if quick else 30000)
     if not quick:
         run_instance(rep, "arith_bfv16", "bfv_16_97_50,50,50,50", actions=ARITH, depth=7, extra_sample=20000)
         run_instance(rep, "arith_bgv4", "bgv_4_17_40,40,40,40", actions=ARITH, depth=7, extra_sample=20000)
@@ -173,6 +186,12 @@ def check_c05(rep):
             ps = "%s_8_%d_%s" % (sch, 0 if sch == "ckks" else 17, bits)
             run_instance(rep, "chain%d_%s" % (k - 1, sch), ps, actions=CHAIN, depth=4 if k > 3 else 5, ct_slots=("c1", "c2"), pt_slots=("p1",),
                          scales=(20, 30), extra_sample=2000 if quick else 20000, deadline=10.0)
+    mixed = ["30,30,50,50", "20,40,60,60", "60,30,45,60"] if quick else ["30,30,50,50", "20,40,60,60", "60,30,45,60", "25,25,25,60,60", "50,20,50,20,60", "17,23,31,41,53,61"]
+    for i, bits in enumerate(mixed):
+        for sch in ("bfv", "bgv", "ckks"):
+            ps = "%s_8_%d_%s" % (sch, 0 if sch == "ckks" else 17, bits)
+            run_instance(rep, "mixed%d_%s" % (i, sch), ps, actions=["Encode", "Encrypt", "EncryptZero", "ModSwitchNext", "ModSwitchTo", "RescaleNext", "RescaleTo", "Multiply"],
+                         depth=4, ct_slots=("c1", "c2"), pt_slots=("p1",), scales=(15,), extra_sample=1000 if quick else 10000, deadline=10.0)
     rep.assumptions += COMMON_ASSUME + ["a call that does not return within 10 s (N=8, microseconds of work) is reported as non-termination"]
 
 
@@ -182,4 +201,9 @@ def check_c06(rep):
                        "is_valid_for and an independent validity predicate; the three API forms must agree byte-for-byte; must-refuse operands must make the call panic")
     for sch, ps in (("bfv", BFV), ("bgv", BGV), ("ckks", CKKS)):
         run_instance(rep, "all_" + sch, ps, actions=ALL_ACTIONS, depth=3 if quick else 4, extra_sample=5000 if quick else 50000, scales=(20, 30))
+    plainops = ["Encode", "Encrypt", "EncryptZero", "Sub", "Add", "Negate", "MulPlain", "AddPlain", "SubPlain", "ToNtt", "FromNtt", "PlainToNtt", "Multiply", "Square"]
+    for sch, ps, msgs in (("bfv", BFV, [[0, 0, 5], [0, 16], [1, 2, 3, 4, 5, 6, 7, 16], [7]]), ("bgv", BGV, [[0, 0, 5], [0, 16], [1, 2, 3, 4, 5, 6, 7, 16], [7]]),
+                          ("ckks", CKKS, None)):
+        run_instance(rep, "plainops_" + sch, ps, actions=plainops, depth=(4 if sch == "ckks" else 5) if quick else (5 if sch == "ckks" else 6), msgs=msgs, tag_msgs=True,
+                     extra_sample=5000 if quick else 50000, scales=(30,))
     rep.assumptions += COMMON_ASSUME
